@@ -540,9 +540,20 @@ func (r *rows) ColumnTypeNullable(i int) (bool, bool)   { return r.base.ColumnTy
 func (r *rows) ColumnTypeScanType(i int) reflect.Type   { return r.base.ColumnTypeScanType(i) }
 
 // ErrInjected is the distinctive sentinel used by fault plans.
-type ErrInjected struct{ At string }
+type ErrInjected struct {
+	At string
+	// Cause, when set, is wrapped (errors.Is sees it): a driver may fail with any error value
+	Cause error
+}
 
-func (e *ErrInjected) Error() string { return "verif: injected fault at " + e.At }
+func (e *ErrInjected) Error() string {
+	if e.Cause != nil {
+		return "verif: injected fault at " + e.At + ": " + e.Cause.Error()
+	}
+	return "verif: injected fault at " + e.At
+}
+
+func (e *ErrInjected) Unwrap() error { return e.Cause }
 
 // FailNth returns a hook failing the n-th (1-based) faultable call (commit included,
 // rollback excluded) with the given error; *count reports how many were seen.
